@@ -58,15 +58,15 @@ def value_valid(ty: FT, x: str):
 
 
 def canon_partial(s: Struct, mask: int):
-    return f"Partial{s.name}<{mask}>"
+    return f"{s.pname}<{mask}>"
 
 
 def partial_ty(s: Struct, mask: int):
-    return f"Partial{s.name}<{hex(mask)}>"
+    return f"{s.pname}<{hex(mask)}>"
 
 
 def partial_path(s: Struct, mask: int):
-    return f"Partial{s.name}::<{hex(mask)}>"
+    return f"{s.pname}::<{hex(mask)}>"
 
 
 def conj(*xs):
@@ -134,7 +134,7 @@ def struct_contracts(s: Struct, with_builder=True):
                 "kani::modifies(self)",
                 f"kani::ensures(|_r| {conj(inv_self, f'($SELFRAW as u128) == {newo}')})"]})
     if with_builder and s.builder_expected():
-        P = f"Partial{S}"
+        P = s.pname
         out.append({"impl": S, "trait": None, "fn": "builder", "attrs": [
             f"kani::ensures(|r: &{partial_ty(s, 0)}| (r.$RAWOF({P}) as u128) == {hex(s.start_value())}u128)"]})
         chain = s.mask_chain()
@@ -183,8 +183,8 @@ def arbitrary_impl_struct(s: Struct):
 
 
 def arbitrary_impl_partial(s: Struct):
-    return (f"impl<const M: {s.sty}> kani::Arbitrary for Partial{s.name}<M> {{ fn any() -> Self {{ "
-            f"Partial{s.name}(kani::any()) }} }}\n")
+    return (f"impl<const M: {s.sty}> kani::Arbitrary for {s.pname}<M> {{ fn any() -> Self {{ "
+            f"{s.pname}(kani::any()) }} }}\n")
 
 
 def enum_harnesses(p: Program, e: Enum):
@@ -393,7 +393,7 @@ def builder_harnesses(p: Program, s: Struct):
     hs = []
     S, R = s.name, s.rawname
     pre = f"h_{p.pid}_{S}"
-    P = f"Partial{S}"
+    P = s.pname
     chain = s.mask_chain()
     hs.append(H(f"{pre}_builder", "builder", f"{S}::builder", f"let _r = {S}::builder(); kani::cover!(true);",
                 [f"#[kani::proof_for_contract({S}::builder)]"], struct=s, needs=[(S, "builder")]))
